@@ -78,6 +78,21 @@ theorem claimed_ops_readonly :
     ∀ r ∈ rows, r.claimed = true → r.constWrites = [] ∧ r.pointeeWrites = [] ∧ (∀ s ∈ r.statics, s ∈ allowedStatics) := by
   decide +kernel
 
+/-- … and hands no data member of the shared object (nor the object itself, nor -- in a copy constructor -- the source object) to a
+    callee position through which that callee, or anything it forwards the parameter to, may store (`translate/paramwrites.py`: least
+    fixpoint over the call graph, `const_cast` and C-style casts followed, bodies outside the translation unit judged by parameter
+    type).  The only entries of the regenerated table that are not counted are listed in `argNormalise`: the polynomial constants
+    `zero`/`one`/`mOne` and `Extension`'s modulus handed to the in-place normalising predicates, where every store on the path is the
+    guarded `resize` of `Poly1Dom::setdegree` -- unreachable while these members are stored normalised, which the thread harness
+    inspects on every run (`norm` lines) and which is an assumption of this theorem's reading, not proved. -/
+theorem claimed_ops_hand_out_no_shared_member :
+    ∀ r ∈ rows, r.claimed = true → r.argWrites = [] := by
+  decide +kernel
+
+/-- non-vacuity of the interprocedural column: the analysis does find such call sites (the normalising ones) in claimed operations,
+    and it does find genuine hand-outs in operations that are not claimed (constructors filling their own members) -/
+example : (rows.any (fun r => r.claimed && !r.argNormalise.isEmpty)) = true := by decide +kernel
+
 /-- non-vacuity: the claimed set is large, and the excluded random draws are exactly where writes (to the caller's generator) occur -/
 example : (rows.filter (·.claimed)).length > 300 ∧ (rows.any (fun r => !r.claimed && !r.constWrites.isEmpty)) = true := by
   decide +kernel
